@@ -374,6 +374,21 @@ fn run_typed<T: Payload>(c: &SchedCase) -> Outcome {
         }
         let n = c.threads.len();
         let cols = c.columns.max(1) as usize;
+        // another vector with a smaller item type and the same column count lives and dies first in this
+        // process: nothing about one instantiation may leak into another (shared statics in generic code)
+        {
+            let decoy: RawVec<u16> = RawVec::with_capacity(c.capacity as u32, cols as u32);
+            for k in 0..3u16 {
+                decoy.push(k, |_, cs| {
+                    for c in cs.iter_mut() {
+                        *c = Utf32String::from("decoy");
+                    }
+                });
+            }
+            if decoy.get(1).map(|it| *it.data) != Some(1) {
+                out.fail("final-content", "a three-item vector of u16 does not return its second item".to_string());
+            }
+        }
         {
             let mut s = ctl().s.lock();
             *s = Sched { log: vec![], waiting: vec![false; n], finished: vec![false; n], turn: None, active: true };
